@@ -25,7 +25,7 @@ def jobs(tier):
         p2 = {"qs_attempts": 2, "wait_attempts": 2}
         bp = b == "gp_bp"
         cap = {"init_reader_count": 2} if bp else {}
-        J.append(Job(b, "rereg", "2,0,0,0" if q else "3,0,0,0", dict(p1, prereg=0), env, workers=8))
+        J.append(Job(b, "rereg", "3,0,0,0", dict(p1, prereg=0), env, workers=8))
         J.append(Job(b, "rereg", "1,1,0,0" if q else "2,1,0,0", dict(p1, prereg=0), env, workers=8))
         J.append(Job(b, "rereg", "2,0,0,0", dict(p2, prereg=0, two=1, **cap), env, workers=8))
         J.append(Job(b, "leave_block", "2,0,0,0" if q else "3,0,0,0", p1, env, workers=8))
@@ -36,7 +36,7 @@ def jobs(tier):
             for ur in (0, 1, 2):
                 J.append(Job(b, "qsbr", "2,0,0,0", dict(p1, updater_registered=ur), env, workers=8))
         J.append(Job(b, "churn", "2,0,0,0" if q else "2,1,0,0", dict(p1, n=2, prestart=1, **cap), env, workers=8))
-        J.append(Job(b, "churn", "1,0,0,0" if q else "2,0,0,0", dict(p1, n=3, prestart=1, **cap), env, workers=16))
+        J.append(Job(b, "churn", "2,0,0,0", dict(p1, n=3, prestart=1, **cap), env, workers=16))
         J.append(Job(b, "churn", "1,0,0,0" if q else "2,0,0,0", dict(p1, n=3, prestart=2, second_section=1, **cap), env, workers=16))
         J.append(Job(b, "churn", "1,0,0,0", dict(p1, n=4, prestart=2, **cap), env, workers=16))
         J.append(Job(b, "slot_hole", "2,0,0,0" if q else "3,0,0,0", dict(p1, **cap), env, workers=8))
